@@ -141,6 +141,11 @@ RouteSpecificFirst(cfg, tenant) ==
         df == { k \in DOMAIN cfg : IsDefaultEntry(cfg[k]) }
     IN IF sp # {} THEN HMin(sp) ELSE IF df # {} THEN HMin(df) ELSE 0
 RouteAccepted(cfg, tenant) == { RouteFirstInOrder(cfg, tenant), RouteSpecificFirst(cfg, tenant) }
+(* seen: the set of hashrings (indices into cfg, 0 = "no matching hashring" error) that      *)
+(* answered the tenant's requests -- first, repeated and concurrent ones.                     *)
+C27Clauses(seen, cfg, tenant) ==
+    (IF seen \subseteq RouteAccepted(cfg, tenant) THEN {} ELSE {"served-by-the-first-matching-hashring-or-default"})
+    \cup (IF Cardinality(seen) <= 1 THEN {} ELSE {"choice-stable-across-repeated-and-concurrent-requests"})
 
 (* ---- C49: memcached server selection ---- *)
 (* single[k]: server picked for key k looked up alone; batch[k]: in a batch; perm[k]: with   *)
